@@ -293,6 +293,15 @@ def trace_property(pid, tier, seed, workdir):
         "category_counts": sum_counts(results),
         "exhaustive": False,
     }
+    if pid == "C06":
+        # beyond the listed properties: the recorded implementation ORDER of the rule-only list (X01);
+        # an observation, never a violation
+        try:
+            xs = [validate_trace(p_, "X01") for p_ in paths_t[:2]]
+            cov["beyond_properties"] = {"X01_rule_only_list_order_matches_recorded_implementation_order": all(x["accepted"] for x in xs),
+                                        "events": sum(x["lines"] for x in xs)}
+        except ToolError as te:
+            cov["beyond_properties"] = {"X01": "not evaluated: %s" % str(te)[:100]}
     gaps = [k for k, v in cov["category_counts"].items() if v == 0]
     if gaps:
         cov["coverage_gaps"] = gaps
@@ -548,7 +557,18 @@ def c20(pid, tier, seed, workdir):
         total_runs += len(recs) - 1
         samples = samples or recs[:2] + [x for x in recs if x.get("k") == "bisect"]
         log("[ladder] profile=%s %s" % (profile, json.dumps(per[profile])))
+    # beyond the listed properties: linked_list.rs against its sequential meaning (observation only)
+    extra = {}
+    try:
+        pl = os.path.join(workdir, "plist.ndjson")
+        rc, o = sh([os.path.join(build_harness("release"), "probe"), "plist", str(seed), "20000" if tier == "quick" else "200000", pl], 900)
+        if rc == 0:
+            pv = validate_trace(pl, pid, cfg="Probe.cfg", module="PListTrace.tla")
+            extra = {"linked_list_conformance_with_sequence_semantics": pv["accepted"], "operations": pv["lines"]}
+    except ToolError as te:
+        extra = {"linked_list_conformance": "not evaluated: %s" % str(te)[:100]}
     cov = {
+        "beyond_properties": extra,
         "states": loop["distinct"] + glue["distinct"], "transitions": loop["generated"] + glue["generated"],
         "traces_validated_against_impl": 1 + 2,
         "evaluations": total_runs + r["lines"], "distinct_nontrivial": total_runs,
